@@ -17,8 +17,11 @@ const base = {
 export default new Proxy(base, { get(t, prop) { if (prop in t) return t[prop]; return (...args) => { calls.push([prop, args]); return 0; }; } });
 '''
 
-PRIM_VALUE = {"u8": 0x12, "i16": -2, "u32": 0x89ABCDEF, "i64": -3, "f32": 1.5, "f64": -2.25, "bool": 1, "char": 0x1F600, "u16": 0xBEEF}
-PRIM_FMT = {"u8": "<B", "i16": "<h", "u32": "<I", "i64": "<q", "f32": "<f", "f64": "<d", "bool": "<B", "char": "<I", "u16": "<H"}
+# one value per primitive: negative for the signed ones, top bit set for the unsigned ones (a wrong-signedness accessor shows)
+PRIM_VALUE = {"u8": 0x92, "i8": -3, "u16": 0xBEEF, "i16": -2, "u32": 0x89ABCDEF, "i32": -5, "u64": 0xFEDCBA9876543210, "i64": -3,
+              "usize": 0x89ABCDEF, "isize": -7, "f32": 1.5, "f64": -2.25, "bool": 1, "char": 0x1F600}
+PRIM_FMT = {"u8": "<B", "i8": "<b", "u16": "<H", "i16": "<h", "u32": "<I", "i32": "<i", "u64": "<Q", "i64": "<q", "usize": "<I", "isize": "<i",
+            "f32": "<f", "f64": "<d", "bool": "<B", "char": "<I"}
 STRUCTS = {"S2": [{"k": "prim", "p": "u8"}, {"k": "prim", "p": "u16"}], "S3": [{"k": "prim", "p": "u32"}, {"k": "prim", "p": "u8"}, {"k": "prim", "p": "u16"}],
            "SW": [{"k": "prim", "p": "u8"}, {"k": "prim", "p": "i64"}]}
 OPQ_PTR = 0x2000
@@ -56,7 +59,7 @@ class Val:
         if k == "prim":
             p = t["p"]
             v = PRIM_VALUE[p]
-            if p in ("i64",):
+            if p in ("i64", "u64"):
                 js = "%dn" % v
             elif p == "bool":
                 js = "true"
@@ -132,9 +135,10 @@ def run(rep, tier):
     rng = random.Random(lib.seed())
     rng.shuffle(cases)
     if tier == "quick":
-        small = [c for c in cases if len(c["fields"]) <= 2]
+        one = [c for c in cases if len(c["fields"]) == 1]         # every field type on its own: always
+        small = [c for c in cases if len(c["fields"]) == 2]
         big = [c for c in cases if len(c["fields"]) == 3]
-        cases = small[:200] + big[:250]
+        cases = one + small[:220] + big[:250]
     else:
         rs = lib.tlc("abi", "MC_WasmAbi", "wasm_sim.cfg", workers=1, coverage=False, simulate=300, depth=8, timeout=600)
         more = [c for c in rs.printed.get("CASE", []) if len(c["fields"]) >= 4]
@@ -306,7 +310,7 @@ def readback_expect(f, vg, img, c, i):
     k = f["k"]
     if k == "prim":
         v = PRIM_VALUE[f["p"]]
-        if f["p"] == "i64":
+        if f["p"] in ("i64", "u64"):
             return "big:%d" % v
         if f["p"] == "bool":
             return True
@@ -327,7 +331,7 @@ def host_rustc_leg(rep, cases, wd):
     def rf(t):
         k = t["k"]
         if k == "prim":
-            return {"char": "u32"}.get(t["p"], abisig.PRIM_RUST[t["p"]])
+            return {"char": "u32", "usize": "u32", "isize": "i32"}.get(t["p"], abisig.PRIM_RUST[t["p"]])
         if k == "enum":
             return "i32"
         if k == "opq":
